@@ -651,6 +651,16 @@ structure DivAcc where
   flow : List (Val × Val) := []
   topology : List (Val × Val) := []
 
+/-- the flow a daughter of a division is generated with: her own when she gives a non-empty one; none
+when she brings her own processes or steps (her steps are then legacy derivers, fix F57); the mother's
+only when she names neither -/
+def daughterFlow (dk : KVs) (m : Tree) : Val :=
+  let inherited : Val :=
+    if KV.has "processes" dk || KV.has "steps" dk then .dict [] else (getFlow m).getD (.dict [])
+  match KV.lookup "flow" dk with
+  | some fl => if fl.truthy then fl else inherited
+  | none => inherited
+
 /-- one daughter of `Store.divide` -/
 def divideDaughter (fuel : Nat) (here : Path) (mother : String) (acc : DivAcc)
     (dd : Val × Val) : FM DivAcc := do
@@ -687,13 +697,7 @@ def divideDaughter (fuel : Nat) (here : Path) (mother : String) (acc : DivAcc)
   let topology := match KV.lookup "topology" dk with
     | some tp => tp
     | none => (getTopology m).getD (.dict [])
-  -- a daughter that brings her own processes or steps and no flow: her steps are legacy derivers (fix F57);
-  -- only a daughter that names neither inherits the mother's flow
-  let inherited : Val :=
-    if KV.has "processes" dk || KV.has "steps" dk then .dict [] else (getFlow m).getD (.dict [])
-  let flow := match KV.lookup "flow" dk with
-    | some fl => if fl.truthy then fl else inherited
-    | none => inherited
+  let flow := daughterFlow dk m
   let rootP ← generate fuel here [k] processes (.dict []) flow topology merged
   let tps ← lift (topLevelPaths rootP topology)
   applySubschemaPath fuel here [k]
